@@ -379,8 +379,17 @@ func (m *Machine) assert(c *Term, msg string) {
 	case "unsat":
 		m.res.Asserts++
 		if m.shared != nil {
+			if m.lastFocus != nil {
+				// proved from the focused assumptions only: reusable wherever those hold
+				var fh []uint64
+				for _, p := range m.lastFocus {
+					fh = append(fh, p.Hash())
+				}
+				pcHashes = fh
+			}
 			m.shared.recordProven(c.Hash(), pcHashes)
 		}
+		m.lastFocus = nil
 	case "sat":
 		f := &Failure{Harness: m.cfg.Name, Msg: msg, Kind: "assert", Prefix: append([]int(nil), m.prefix[:m.pos]...)}
 		f.Valid = m.validate(model, neg)
@@ -460,6 +469,69 @@ func (m *Machine) decide(goal *Term) (string, Model) {
 // still unsat; a sat answer is accepted only if nothing was dropped and the
 // model validates).
 func (m *Machine) decideInt(goal *Term, vars map[string]*Term) (string, Model) {
+	// first a focused query: only the assumptions that speak about the goal's
+	// own variables (fewer assumptions: an unsat answer carries over)
+	gv := goal.FreeVars()
+	rel := map[string]bool{}
+	for n := range gv {
+		rel[n] = true
+	}
+	// one round of widening: variables of the conjuncts that touch the goal's variables
+	for _, c := range m.pc {
+		touches := false
+		for n := range c.FreeVars() {
+			if _, ok := gv[n]; ok {
+				touches = true
+				break
+			}
+		}
+		if touches {
+			for n := range c.FreeVars() {
+				rel[n] = true
+			}
+		}
+	}
+	var focus []*Term
+	for _, c := range m.pc {
+		inside := true
+		for n := range c.FreeVars() {
+			if !rel[n] {
+				inside = false
+				break
+			}
+		}
+		if inside {
+			focus = append(focus, c)
+		}
+	}
+	if len(focus) < len(m.pc) {
+		for i := len(m.intSol) - 1; i >= 0; i-- {
+			s := m.intSol[i]
+			s.Push()
+			ok := true
+			for _, c := range focus {
+				if err := s.Assert(c); err != nil {
+					continue
+				}
+			}
+			if err := s.Assert(goal); err != nil {
+				ok = false
+			}
+			r := "unknown"
+			if ok {
+				r = s.Check("assert-int-focused", 3*time.Second)
+			}
+			s.Pop()
+			if r == "unsat" {
+				m.lastFocus = focus
+				return "unsat", nil
+			}
+			if os.Getenv("GOSYM_DEBUG_FOCUS") != "" {
+				fmt.Fprintf(os.Stderr, "FOCUS %s: %d of %d conjuncts; goal vars %v\n", r, len(focus), len(m.pc), sortedVarNames(gv))
+			}
+		}
+	}
+	m.lastFocus = nil
 	final := "unknown"
 	var fmodel Model
 	answered := map[int]bool{}
